@@ -272,6 +272,10 @@ func TestLedgerConservation(t *testing.T) {
 			b1 = append(b1, dtx)
 			b1meta = append(b1meta, blockgen.Tx{Tx: dtx, Kind: "contract_create", Desc: "create{" + d + "}"})
 		}
+		authDeploy := txgen.Contract(nil, txgen.Faucets[1], "", "0x"+fmt.Sprintf("%x", blockgen.InitCodeFor(authCallerRuntime())), "0", "30000000", "1000000000", 99, salt+"-authcaller")
+		b1 = append(b1, authDeploy)
+		b1meta = append(b1meta, blockgen.Tx{Tx: authDeploy, Kind: "contract_create", Desc: "create{authcaller}"})
+		authCaller := ""
 		blocks := [][]blockgen.Tx{nil}
 		_ = blocks
 		nBlocks := rapid.IntRange(1, 4).Draw(t, "nBlocks")
@@ -295,7 +299,12 @@ func TestLedgerConservation(t *testing.T) {
 					s := fmt.Sprintf("%s-b%d-%d", salt, b, i)
 					var x blockgen.Tx
 					gen := func(exclude map[string]bool) blockgen.Tx {
-						switch rapid.SampledFrom([]string{"transfer", "transfer", "miner", "contract", "contract", "contract", "token", "token", "eth"}).Draw(t, "txKind") {
+						switch rapid.SampledFrom([]string{"transfer", "transfer", "miner", "contract", "contract", "contract", "token", "token", "eth", "authcall"}).Draw(t, "txKind") {
+						case "authcall":
+							if authCaller == "" {
+								return blockgen.GenTransfer(t, src, nonces[src], s, false)
+							}
+							return authCallTx(t, src, nonces[src], s, authCaller, nextHeight)
 						case "transfer":
 							return blockgen.GenTransfer(t, src, nonces[src], s, false)
 						case "miner":
@@ -442,6 +451,10 @@ func TestLedgerConservation(t *testing.T) {
 			// continue
 			for _, r := range res.Receipts {
 				if (r.ContractAddress != common.Address{}) && r.Status == types.ReceiptStatusSuccessful {
+					if r.TxHash == authDeploy.Hash {
+						authCaller = r.ContractAddress.GetHexString()
+						continue
+					}
 					contracts = append(contracts, r.ContractAddress.GetHexString())
 					for _, m := range meta {
 						if m.Tx.Hash == r.TxHash && strings.Contains(m.Desc, "SELFDESTRUCT(self)") {
